@@ -165,6 +165,28 @@ def gen_layer_setup():
                 yield {'spec': {'layers': layers, 'tests': tests, 'args': opts}}
 
 
+def gen_refused_teardown():
+    """the stop happens while a layer is set up whose tearDown raises NotImplementedError and which has base layers with
+    ordinary tearDowns: the final clean-up must still reach every other set-up layer"""
+    for bad_kind in ('fail', 'error', 'usuccess'):
+        for opts in (['-x'], ['-x', '-v'], ['-x', '--repeat', '2']):
+            for chain in (['LA', 'LB'], ['LA', 'LB', 'LC']):
+                layers = [{'name': n, 'bases': [chain[i - 1]] if i else []} for i, n in enumerate(chain)]
+                for refusing in range(1, len(chain)):
+                    ls = [dict(ly) for ly in layers]
+                    ls[refusing]['tearDown'] = 'NotImplementedError'
+                    top = chain[-1]
+                    tests = [{'k': 'pass'}, {'k': 'pass', 'layer': top}, {'k': bad_kind, 'layer': top},
+                             {'k': 'pass', 'layer': top}]
+                    yield {'spec': {'layers': ls, 'tests': tests, 'args': opts}}
+                    # ... or the stop is a failing setUp of a layer derived from the refusing one
+                    if refusing < len(chain) - 1:
+                        ls2 = [dict(ly) for ly in ls]
+                        ls2[-1]['setUp'] = 'ValueError'
+                        tests2 = [{'k': 'pass', 'layer': chain[refusing]}, {'k': 'pass', 'layer': top}]
+                        yield {'spec': {'layers': ls2, 'tests': tests2, 'args': opts}}
+
+
 def gen_pairs():
     alpha = BAD_KINDS + GOOD_KINDS
     for a, b, c in itertools.product(alpha, alpha, ['pass', 'fail']):
@@ -202,6 +224,8 @@ def run(budget_s, seed, tier):
          % (len(BAD_KINDS), len(OPTS)), True, gen_positions()),
         ('layer setUp failure at 3 positions x base/no base x option sets', True,
          gen_layer_setup()),
+        ('stop while a layer that refuses its tearDown (NotImplementedError) is set up on top of ordinary base layers', True,
+         gen_refused_teardown()),
         ('all pairs over %d kinds followed by a test in another layer'
          % (len(BAD_KINDS) + len(GOOD_KINDS)), True, gen_pairs()),
         ('random', False, gen_random(seed)),
